@@ -204,6 +204,6 @@ InvVShape == Produced => NetOK(net) /\ OutOK(net, out)
 InvVExact == Produced => (VAccepts(World, net, out) <=> Acceptable(World, net, out))
 \* growing C09: every legal floorplan of the legaliser's constraint system is an acceptable result
 InvLegalAccepted == (Len(net) > 0 /\ pc \in {"build", "moved"}) => Acceptable(World, net, OutOf(net, cfg))
-\* and an output that only repeats a configuration is acceptable exactly when the clauses the verifier claims hold
+\* bookkeeping of Produce: when one clause is false it is the recorded one
 InvVOne == (pcv = "one") => VFalse(World, net, out) = {vbroken}
 =============================================================================
